@@ -154,6 +154,15 @@ def r1_gate(ctx: Ctx) -> None:
         if isinstance(v, ast.Call) and dotted(v.func) in ('_expression_cache.get',):
             ctx.ok('C03.R1', pe, 'return of a cache entry', r, 'return:cache-read')
             continue
+        if isinstance(v, ast.Name):
+            # a local that holds a cache entry on this path: every definition reaching the return reads the cache
+            ds = [cfg.stmt[d] for d in cfg.defs_reaching(r, v.id) if d != 'param']
+            def is_cache_read(e):
+                return (isinstance(e, ast.Subscript) and isinstance(e.value, ast.Name) and e.value.id in cache_names) or \
+                    (isinstance(e, ast.Call) and dotted(e.func) in ('_expression_cache.get',))
+            if ds and all(isinstance(d_, ast.Assign) and is_cache_read(d_.value) for d_ in ds):
+                ctx.ok('C03.R1', pe, 'return of a cache entry held in a local', r, 'return:cache-read')
+                continue
         ok, why = _validated_at(fl, v, r, vcalls)
         ctx.check(ok, 'C03.R1', pe, 'return:validated-tree', 'returned tree is the ast.parse result and validate_ast(tree) dominates the return',
                   f'return {src(v)!r}: {why}', r)
@@ -689,6 +698,10 @@ def r5_closed_callee(ctx: Ctx) -> None:
                             dotted(s.value.func) in ('self.ctx.get_function', 'ctx.get_function')
                         if isinstance(s, (ast.FunctionDef,)):
                             good = True     # local helper (e.g. generator())
+                        if not good and s is not None and isinstance(s, ast.Assign):
+                            # a handler picked from a class-level table of the evaluator's own methods (closed: keys and methods are literals of the source)
+                            from ._tables import method_table
+                            good = method_table(s.value, m.module, m.cls) is not None
                         if not good:
                             ok = False
                             why = src(s)[:60] if s is not None else 'parameter'
@@ -869,8 +882,8 @@ def r7_whitelist(ctx: Ctx) -> None:
 FRESH_CALLS = {'set', 'list', 'dict', 'tuple', 'sorted', 'defaultdict', 'OrderedDict', 'copy', 'deepcopy', 'frozenset'}
 
 
-def _fresh(fl: Flow, name: str, at) -> bool:
-    defs = fl.cfg.defs_reaching(fl.stmt_of(at), name)
+def _fresh(fl: Flow, name: str, at, _depth: int = 0) -> bool:
+    defs = fl.cfg.defs_reaching(fl.stmt_of(at), name) - ({fl.cfg.nid(at)} if isinstance(at, ast.AugAssign) else set())
     if not defs:
         return False
     for d in defs:
@@ -882,6 +895,11 @@ def _fresh(fl: Flow, name: str, at) -> bool:
             v = s.value
         elif isinstance(s, ast.AnnAssign):
             v = s.value
+        elif isinstance(s, ast.AugAssign) and isinstance(s.target, ast.Name) and s.target.id == name:
+            # x |= {…} / x += […] on a local that was fresh before stays the function's own object
+            if _depth < 4 and _fresh(fl, name, s, _depth + 1):
+                continue
+            return False
         if v is None:
             return False
         if isinstance(v, (ast.List, ast.Dict, ast.Set, ast.ListComp, ast.SetComp, ast.DictComp, ast.Tuple, ast.Constant)):
